@@ -244,7 +244,8 @@ def _task_one(task):
 
     def write(pkts):
         fcount[0] += 1
-        path = os.path.join(work, f"c18_{os.getpid()}_{fcount[0] % 4}.bin")
+        # file names are labels: characters that mean something to a shell or to glob ([ ] * ?) are ordinary characters here
+        path = os.path.join(work, ("c18_{p}_{k}.bin", "c18_{p}_[{k}].bin", "c18_{p}_{k}?.bin", "c18 {p} *{k}.bin")[fcount[0] % 4].format(p=os.getpid(), k=fcount[0] % 4))
         with open(path, "wb") as f:
             f.write(b"".join(pkts))
         return path
@@ -323,7 +324,7 @@ def _task_one(task):
         t.violation({"kind": "check-aborted", "exc": type(e).__name__}, base_case, observed=repr(e)[:300])
     for i in range(4):
         try:
-            os.unlink(os.path.join(work, f"c18_{os.getpid()}_{i}.bin"))
+            os.unlink(os.path.join(work, ("c18_{p}_{k}.bin", "c18_{p}_[{k}].bin", "c18_{p}_{k}?.bin", "c18 {p} *{k}.bin")[i].format(p=os.getpid(), k=i)))
         except OSError:
             pass
     t.programs += 1
@@ -348,7 +349,7 @@ def run(ctx):
         "rule": "one evaluation = one create_dataset call compared cell by cell with packet_generator's items; distinct non-trivial = distinct value packets per field kind",
     }
     return {"level": LEVEL, "tally": tally, "coverage": coverage,
-            "assumptions": ["expected cells are packet_generator's own items (C01 decides those)", "the file argument rotates through str, Path, list, tuple, generator, iterator of Paths and map object", "a boolean cell may be stored as 0/1",
+            "assumptions": ["expected cells are packet_generator's own items (C01 decides those)", "the file argument rotates through str, Path, list, tuple, generator, iterator of Paths and map object; file names rotate through plain, [k], k? and ' *k' forms", "a boolean cell may be stored as 0/1",
                             "integer widths above 64 bits are outside the claim"]}
 
 
